@@ -15,6 +15,10 @@ NOT_APPLICABLE = {
 
 # property -> (engine, category, technique, text, note, design_ref)
 CLAIMED = {
+    'C05': ('cv', 'other', 'control-dependence partition analysis of the split code with derived train/test/selector roles, followed by dataflow into the 8 workers (no-leak), selector-consistency by polynomial equality, learner-dispatch exhaustiveness across sibling routines, create/join pairing, predicate dataflow for the rejection-sampling store, index-role typing of the residual columns',
+            'Decides the structural clauses: split is a partition by construction, held-out selector == placement selector, fit sees only training data and the held-out response is never used, every learner is dispatched and every thread joined, ids are stored only when fresh, residuals pair matching columns. Equality with an independently refitted model, finiteness, and that the random group matrix is a permutation at value level are NOT decided.',
+            'Trusted: clang AST; roles derived from kfold_group_train_test_split control dependence; fit entry points PLS/MLR/EPLS/LDA take (x, y) first. A worker or split routine the rules cannot bind is ANALYSIS-BROKEN.',
+            'DESIGN.md 2/E5-E6, 3/C05'),
     'C03': ('layout', 'other', 'index-role typing (a units-of-measure style dataflow over extents q, A, q*A and the indices ranging over them) checked at every subscript, column composition, column decomposition and column append',
             'Decides only the column-layout clause: residual/recalculated/prediction matrices with q*A columns are produced and consumed LV-major, so column c is always paired with response c mod q. Orthogonality, re-projection and the values of the fitted responses are NOT decided.',
             'Trusted: clang AST; the role seeds (struct fields and public parameter positions, DESIGN.md Appendix A). A subscript whose roles cannot be inferred is counted as undecided, never as a violation.',
